@@ -174,7 +174,7 @@ for _p in ("C01", "C09"):
 
 # The library end to end, source terms only (Library.v: parser of EntryRs + LoopRs, then the renderer
 # of RenderRs): the property's main theorem stated for that composition
-for _p in ("C01", "C03", "C05", "C06", "C11"):
+for _p in ("C01", "C03", "C05", "C06", "C09", "C11"):
     _s = PROPS[_p]
     _s["prop_files"] = _s.get("prop_files", [_p]) + [f for f in ("C09rs", "C06rs", "C08rs", "Library") if f not in _s.get("prop_files", [])]
     _have = (_s.get("translate") or "").split(",")
